@@ -181,12 +181,14 @@ Qed.
 Definition serC := ser_as ec_ser PKFCompressed.
 Definition serU := ser_as ec_ser PKFUncompressed.
 Definition serH := ser_as ec_ser PKFHybrid.
+(* (phase 5) the abstract *bchec.PublicKey is [option P]: nil is None; a method call on it is Panic 5 *)
+Definition pkNil (o : option P) : bool := match o with Some _ => false | None => true end.
 
 Theorem AddressPubKey_serialize_tie fmt pt id :
-  Kernels3.AddressPubKey_serialize (option P) serC serU serH (g_pubkey fmt pt id) = serialize P ec_ser fmt pt.
+  Kernels3.AddressPubKey_serialize (option P) serC serU pkNil serH (g_pubkey fmt pt id) = Ok (serialize P ec_ser fmt pt).
 Proof.
   unfold Kernels3.AddressPubKey_serialize, serialize, g_pubkey, serC, serU, serH, ser_as.
-  cbn [Kernels3.bchutil_AddressPubKey_pubKeyFormat Kernels3.bchutil_AddressPubKey_pubKey].
+  cbn [Kernels3.bchutil_AddressPubKey_pubKeyFormat Kernels3.bchutil_AddressPubKey_pubKey pkNil Go3.nonnil rbind].
   change PKFCompressed with 1. change PKFHybrid with 2. change PKFUncompressed with 0.
   destruct (Z.eqb_spec (Z.of_N fmt) 0); [destruct (N.eqb_spec fmt 1); [lia|]; destruct (N.eqb_spec fmt 2); [lia|reflexivity]|].
   destruct (Z.eqb_spec (Z.of_N fmt) 1); [destruct (N.eqb_spec fmt 1); [reflexivity|lia]|].
@@ -242,11 +244,11 @@ Proof.
 Qed.
 
 Theorem AddressPubKey_EncodeAddress_tie fmt pt id :
-  Kernels3.AddressPubKey_EncodeAddress (option P) sha256 Base58.encode serC serU serH (hash160 ripemd160)
+  Kernels3.AddressPubKey_EncodeAddress (option P) sha256 Base58.encode serC serU pkNil serH (hash160 ripemd160)
     (g_pubkey fmt pt id)
   = encode_address ripemd160 P ec_ser (PubKey fmt pt id).
 Proof.
-  unfold Kernels3.AddressPubKey_EncodeAddress. rewrite AddressPubKey_serialize_tie.
+  unfold Kernels3.AddressPubKey_EncodeAddress. rewrite AddressPubKey_serialize_tie. cbn [rbind].
   cbn [g_pubkey Kernels3.bchutil_AddressPubKey_pubKeyHashID encode_address].
   rewrite encodeLegacyAddress_tie. destruct (encode_legacy _ id); reflexivity.
 Qed.
@@ -260,7 +262,7 @@ Definition gEncodeAddress (fuel : nat) (a : addr P) : res (list N) :=
   | LegPKH id h => Kernels3.LegacyAddressPubKeyHash_EncodeAddress sha256 Base58.encode (g_leg_pkh id h)
   | LegSH id h => Kernels3.LegacyAddressScriptHash_EncodeAddress sha256 Base58.encode (g_leg_sh id h)
   | PubKey fmt pt id =>
-      Kernels3.AddressPubKey_EncodeAddress (option P) sha256 Base58.encode serC serU serH (hash160 ripemd160)
+      Kernels3.AddressPubKey_EncodeAddress (option P) sha256 Base58.encode serC serU pkNil serH (hash160 ripemd160)
         (g_pubkey fmt pt id)
   end.
 
@@ -276,20 +278,34 @@ Proof.
   - apply AddressPubKey_EncodeAddress_tie.
 Qed.
 
-Definition gScriptAddress (a : addr P) : list N :=
+Definition gScriptAddress (a : addr P) : res (list N) :=
   match a with
-  | PKH p h => Kernels3.AddressPubKeyHash_ScriptAddress (g_pkh p h)
-  | SH p h => Kernels3.AddressScriptHash_ScriptAddress (g_sh p h)
-  | SH32 p h => Kernels3.AddressScriptHash32_ScriptAddress (g_sh32 p h)
-  | LegPKH id h => Kernels3.LegacyAddressPubKeyHash_ScriptAddress (g_leg_pkh id h)
-  | LegSH id h => Kernels3.LegacyAddressScriptHash_ScriptAddress (g_leg_sh id h)
-  | PubKey fmt pt id => Kernels3.AddressPubKey_ScriptAddress (option P) serC serU serH (g_pubkey fmt pt id)
+  | PKH p h => Ok (Kernels3.AddressPubKeyHash_ScriptAddress (g_pkh p h))
+  | SH p h => Ok (Kernels3.AddressScriptHash_ScriptAddress (g_sh p h))
+  | SH32 p h => Ok (Kernels3.AddressScriptHash32_ScriptAddress (g_sh32 p h))
+  | LegPKH id h => Ok (Kernels3.LegacyAddressPubKeyHash_ScriptAddress (g_leg_pkh id h))
+  | LegSH id h => Ok (Kernels3.LegacyAddressScriptHash_ScriptAddress (g_leg_sh id h))
+  | PubKey fmt pt id => Kernels3.AddressPubKey_ScriptAddress (option P) serC serU pkNil serH (g_pubkey fmt pt id)
   end.
 
-Theorem ScriptAddress_tie a : gScriptAddress a = script_address P ec_ser a.
+Theorem ScriptAddress_tie a : gScriptAddress a = Ok (script_address P ec_ser a).
 Proof.
   destruct a; try reflexivity. cbn [gScriptAddress script_address].
-  unfold Kernels3.AddressPubKey_ScriptAddress. apply AddressPubKey_serialize_tie.
+  unfold Kernels3.AddressPubKey_ScriptAddress. rewrite AddressPubKey_serialize_tie. reflexivity.
+Qed.
+
+(* (phase 5) a nil public key in an AddressPubKey: every method that serialises it panics *)
+Theorem AddressPubKey_nil_key_panics fmt id hx :
+  let a := Kernels3.mk_bchutil_AddressPubKey (option P) fmt None id in
+  Kernels3.AddressPubKey_serialize (option P) serC serU pkNil serH a = Panic 5 /\
+  Kernels3.AddressPubKey_ScriptAddress (option P) serC serU pkNil serH a = Panic 5 /\
+  Kernels3.AddressPubKey_String (option P) serC serU pkNil serH hx a = Panic 5.
+Proof.
+  assert (H : Kernels3.AddressPubKey_serialize (option P) serC serU pkNil serH
+                (Kernels3.mk_bchutil_AddressPubKey (option P) fmt None id) = Panic 5).
+  { unfold Kernels3.AddressPubKey_serialize. cbn [Kernels3.bchutil_AddressPubKey_pubKeyFormat Kernels3.bchutil_AddressPubKey_pubKey pkNil Go3.nonnil rbind].
+    repeat match goal with |- context [if ?b then _ else _] => destruct b end; reflexivity. }
+  cbv zeta. unfold Kernels3.AddressPubKey_ScriptAddress, Kernels3.AddressPubKey_String. rewrite H. repeat split.
 Qed.
 
 Definition gIsForNet (a : addr P) (net : option Kernels3.chaincfg_Params) : res bool :=
@@ -315,7 +331,7 @@ Proof. destruct a; reflexivity. Qed.
 
 (* String(): hex of the serialized key for AddressPubKey (the other five types return EncodeAddress()) *)
 Theorem AddressPubKey_String_tie fmt pt id :
-  Ok (Kernels3.AddressPubKey_String (option P) serC serU serH hex_encode (g_pubkey fmt pt id))
+  Kernels3.AddressPubKey_String (option P) serC serU pkNil serH hex_encode (g_pubkey fmt pt id)
   = addr_string ripemd160 P ec_ser (PubKey fmt pt id).
 Proof.
   unfold Kernels3.AddressPubKey_String. rewrite AddressPubKey_serialize_tie. reflexivity.
